@@ -4,7 +4,7 @@ import pandas as pd
 from hypothesis import strategies as st
 
 from core.outcome import Outcome, discard, observe
-from gen.objects import CARVERS, PIPELINES, STEPS, fit_object, fitted_case, make_object, object_dropna
+from gen.objects import CARVERS, EDIT_STRATEGY, PIPELINES, STEPS, apply_edits, fit_object, fitted_case, make_object, object_dropna
 from gen.samples import build
 from oracles.mapping import content_of, eq, is_missing, is_num, known_values, ref_group, values_equal
 from oracles.views import feature_views
@@ -54,8 +54,10 @@ def strategy(tier):
             "reverse_cols": st.booleans(),
         }
     )
-    return st.tuples(fitted_case(CLASSES, max_features=4), st.lists(frame, min_size=3, max_size=5)).map(
-        lambda t: dict(t[0], frames=t[1])
+    # a third of the objects are edited by hand (update_discretizer) before they meet the new frames
+    edits = st.one_of(st.just([]), st.just([]), EDIT_STRATEGY)
+    return st.tuples(fitted_case(CLASSES, max_features=4), st.lists(frame, min_size=3, max_size=5), edits).map(
+        lambda t: dict(t[0], frames=t[1], edits=t[2])
     )
 
 
@@ -113,7 +115,13 @@ def check_case(case) -> Outcome:
         return discard("no-feature-kept", out.labels)
     is_carver = cls in CARVERS
     out_float = is_carver and cfg["output_dtype"] == "float"
-    dropna = object_dropna(case)
+    dropna_all = object_dropna(case)
+    labelled_nan = set()
+    if case.get("edits") and cls != "MulticlassCarver":
+        ok, labelled_nan, edit_labels = apply_edits(obj, case, case["edits"])
+        if not ok:
+            return discard("edit-raised", out.labels)  # edits themselves are C17's subject
+        out.label(*edit_labels)
 
     train_out = observe(obj.transform, sample.X.copy())
     if not train_out.ok:
@@ -124,6 +132,7 @@ def check_case(case) -> Outcome:
         quantitative = spec["kind"] in ("continuous", "discrete")
         order = obj.values_orders[feat]
         labs = {}
+        dropna = dropna_all or feat in labelled_nan
         for v, lab in zip(sample.X[raw].tolist(), train_out.value[feat].tolist()):
             pos, _ = ref_group(order, v, quantitative, STR_NAN)
             if pos is not None and not (is_missing(v) and not dropna):
@@ -176,6 +185,7 @@ def check_case(case) -> Outcome:
         unseen_any = False
         for feat, raw, spec in views:
             quantitative = spec["kind"] in ("continuous", "discrete")
+            dropna = dropna_all or feat in labelled_nan
             order = obj.values_orders[feat]
             known = known_values(order)
             has_default = any(isinstance(k, str) and k == STR_DEFAULT for k in known)
